@@ -244,9 +244,10 @@ abbrev Pipes := List (Nat × Nat × List Byte)
 
 def Pipes.isEnd (ps : Pipes) (x : Nat) : Bool := ps.any fun p => p.1 == x || p.2.1 == x
 
-/-- `pipe()`: refuse descriptor numbers already in use, else add an empty pipe -/
+/-- `pipe()`: the handler draws descriptor numbers until both are unused and different, so `r`, `w` — the numbers it
+    ended with, an external parameter here — are fresh; numbers that are not are refused (unreachable in the code) -/
 def pipeCreate (ps : Pipes) (r w : Nat) : Option Pipes :=
-  if ps.isEnd r || ps.isEnd w then none else some (ps ++ [(r, w, [])])
+  if ps.isEnd r || ps.isEnd w || r == w then none else some (ps ++ [(r, w, [])])
 
 /-- `write(fd, ..)`: `none` when `fd` is not the write end of a pipe; else append to that pipe -/
 def pipeWrite (ps : Pipes) (fd : Nat) (bytes : List Byte) : Option Pipes :=
@@ -268,6 +269,8 @@ def pipeRead (ps : Pipes) (fd count : Nat) : Option (List Byte × Pipes) :=
 def hookPipe (fds : Nat × Nat) : HookFn := fun s =>
   if s.regs.get RAX != 22 then .ok .unhandled s else
   let (r, w) := fds
+  -- at most 0x4000 open pipes, so that free descriptor numbers always remain
+  if 0x4000 ≤ s.sys.pipes.length then .err s else
   match pipeCreate s.sys.pipes r w with
   | none => .err s
   | some ps =>
@@ -277,9 +280,9 @@ def hookPipe (fds : Nat × Nat) : HookFn := fun s =>
     | .err => .err s1
     | .panic => .panic
     | .ok m1 =>
-      -- `fd_ptr + 8` is a checked addition
+      -- `fd_ptr.checked_add(8)`: an error when the second slot lies beyond 2^64
       match u64add ptr.toNat 8 with
-      | none => .panic
+      | none => .err { s1 with mem := m1 }
       | some p8 =>
         match memWriteN m1 8 p8 w with
         | .err => .err { s1 with mem := m1 }
